@@ -43,7 +43,7 @@ for T in $TARGETS; do
   for k in $(seq 1 $PER); do
     i=$((i+1))
     mkdir -p "$W/corpus/$T-$k"
-    ( timeout --signal=KILL 3000 "$BIN_DIR/$T" -runs="$RUNS" -seed=$(( SEED * 1000 + i )) -len_control=0 -max_len=4096 \
+    ( timeout --signal=KILL "${MQV_FUZZ_TIMEOUT:-3000}" "$BIN_DIR/$T" -runs="$RUNS" -seed=$(( SEED * 1000 + i )) -len_control=0 -max_len=4096 \
         -print_final_stats=1 -rss_limit_mb=6000 -malloc_limit_mb=1024 -artifact_prefix="$W/art/$T-$k-" "$W/corpus/$T-$k" "$SD" \
         >"$W/logs/$T-$k.log" 2>&1; echo $? >"$W/logs/$T-$k.rc" ) &
     pids+=($!)
